@@ -33,6 +33,10 @@ func Dump(p *Prog, what string) {
 	case "ext":
 		dumpExtCalls(p)
 	default:
+		if len(what) > 7 && what[:7] == "params:" {
+			DumpParams(p, what[7:])
+			return
+		}
 		if len(what) > 7 && what[:7] == "bounds:" {
 			DumpBounds(p, what[7:])
 			return
@@ -71,4 +75,11 @@ func DumpBounds(p *Prog, name string) {
 			}
 		}
 	}
+}
+
+func DumpParams(p *Prog, name string) {
+	a := NewNilAnalysis(p)
+	fn := p.Fn(name)
+	s := a.sum[fn]
+	fmt.Println("paramNonNil", s.paramNonNil, "paramIntLo", s.paramIntLo, "paramLenLo", s.paramLenLo, "paramFields", s.paramFields)
 }
